@@ -456,8 +456,10 @@ func (r *renderState) filterRaw(rawHTML []byte) {
 					if r.FilterTag(tagName) {
 						r.dst = append(r.dst, rawHTML[copyStart:i]...)
 						r.dst = append(r.dst, "&lt;"...)
-						r.dst = append(r.dst, rawHTML[tagNameStart:tagEnd]...)
-						copyStart = tagEnd
+						copyStart = tagNameStart
+						// With its '<' escaped, the rest of the tag is text,
+						// so a '<' in it can start a tag of its own.
+						tagEnd = tagNameEnd
 					}
 					i = tagEnd
 				}
